@@ -263,6 +263,9 @@ def run_task(task):
     st = new_stats()
     try:
         prop = importlib.import_module('props.' + task['prop'].lower())
+        if task.get('custom'):
+            prop.custom_task(task, st, sys.modules[__name__])
+            return st
         cfg = core.Cfg(task['cfg'])
         rng = random.Random(task['seed'])
         reqs = list(prop.requests(cfg, rng, task['n'], task['tier'], task['part'], task['nparts'], st))
@@ -355,7 +358,15 @@ def main(argv):
         write_evidence(pid, tier, seed, st, time.time() - t0, prop, ['driver build failed'], {})
         return 2
     tasks = []
-    cfgs = prop.configs(tier)
+    if hasattr(prop, 'make_tasks'):
+        try:
+            tasks = prop.make_tasks(sys.modules[__name__], tier, seed, a.scale, bins)
+        except BuildError as e:
+            print(str(e))
+            print('INCONCLUSIVE property=%s reason=driver build failed (does the repository still compile?)' % pid)
+            write_evidence(pid, tier, seed, st, time.time() - t0, prop, ['driver build failed'], {})
+            return 2
+    cfgs = prop.configs(tier) if not tasks else []
     for ci, cname in enumerate(cfgs):
         cfg = core.Cfg(cname)
         n = max(1, int(prop.budget(cfg, tier) * a.scale))
@@ -366,7 +377,7 @@ def main(argv):
                           'part': part, 'nparts': nparts, 'tier': tier, 'bins': bins, 'n': (n + nparts - 1) // nparts,
                           'timeout': getattr(prop, 'TIMEOUT', 900)})
     # heavier tasks first
-    tasks.sort(key=lambda t: -core.Cfg(t['cfg']).bits)
+    tasks.sort(key=lambda t: -t.get('weight', core.Cfg(t['cfg']).bits if 'cfg' in t else 0))
     with cf.ProcessPoolExecutor(max_workers=a.jobs) as ex:
         for r in ex.map(run_task, tasks, chunksize=1):
             merge(st, r)
